@@ -57,7 +57,7 @@ Eval(e) ==
           ELSE /\ report(bad(offOK), known, "P:C13:rfc-offset")
                /\ report(bad(nameOK), knownName, "P:C13:rfc-name")
                /\ report(bad(tzOK), knownTz, "P:C13:to_tz-agrees")
-       /\ IF e.regen THEN TRUE ELSE PrintT(<<IF e.pytz THEN "KNOWN" ELSE "FAIL", l, "P:C13:regenerate-equal">>)
+       /\ IF e.regen THEN TRUE ELSE PrintT(<<IF e.pytz \/ e.firstkind THEN "KNOWN" ELSE "FAIL", l, "P:C13:regenerate-equal">>)
 Next == \/ l <= Len(Events) /\ Eval(Events[l]) /\ l' = l + 1
         \/ l = Len(Events) + 1 /\ PrintT(<<"DONE", Len(Events)>>) /\ l' = l + 1
 Spec == Init /\ [][Next]_l
